@@ -14,6 +14,7 @@ from vf.exprgen import msgparse as MP
 ID = "C06"
 LEVEL = "exploration"
 SHARDS = {"quick": 1, "thorough": 16}
+FUZZ = {"thorough": (16, 5000)}  # atheris campaigns x executions each (vf/fuzz.py)
 N_QUICK, N_THOROUGH = 1200, 8000
 RULE = ("case = (condition generated from a typed expression grammar - constants, names from arguments / closure / "
         "module globals / builtins incl. shadowing, attributes, subscripts and slices (also tuple subscripts), calls "
